@@ -199,9 +199,13 @@ KF21(impl, st, c) ==
    Both concern the one code site that opens a file, so they are modelled together: the outcome is
    labelled with the finding(s) it needs. *)
 OddAccess(c) == HasFlag(c, "RDONLY") /\ Len(c.flag) > 1
+\* with the odd access mode the permission asked of the file is "write" (ToOpenMode yields OpenWrite without
+\* OpenRead), so the call is evaluated as if O_WRONLY had been given in place of O_RDONLY
+AsWrOnly(c) == [c EXCEPT !.flag = [i \in DOMAIN c.flag |-> IF c.flag[i] = "RDONLY" THEN "WRONLY" ELSE c.flag[i]]]
 ImplOpen(st, c, acc, app) ==
-    LET o == OpenCore(st, c) IN
-    IF o.id = 0 THEN {}
+    LET strict == OpenCore(st, c)
+        o == IF acc THEN OpenCore(st, AsWrOnly(c)) ELSE strict IN
+    IF o.id = 0 THEN (IF acc /\ o.res.err # strict.res.err THEN {Fail(o.res.err, st)} ELSE {})
     ELSE IF acc /\ IsDir(o.st, o.id) /\ (HasFlag(c, "APPEND")) THEN {Fail("EISDIR", st)}
     ELSE
     LET h0 == Handle(o.id, c, IsDir(o.st, o.id))
@@ -279,19 +283,134 @@ KF34(impl, st, c) ==
 
 \* DEVIATIONS-END
 
+(***************************************************************************)
+(* The permission family (C03).  MemFS decides with the same class/bit     *)
+(* test as the kernel but knows nothing of sticky and set-gid directories, *)
+(* of the hard-link protection, keeps Chown for the administrator, and     *)
+(* runs RemoveAll and MkdirAll as single operations with fewer checks.     *)
+(* The deviations compose (a rename in a sticky directory of a set-gid     *)
+(* tree ...), so they are ONE operator: the strict semantics evaluated on  *)
+(* the state as MemFS sees it, each ingredient switched on by its own      *)
+(* finding being open.                                                     *)
+(***************************************************************************)
+PermFamily == {"KF40", "KF41", "KF42", "KF43", "KF44", "KF45", "KF46", "KF48"}
+On(k) == k \in OpenKF
+DirBitsIgnored == (IF On("KF44") THEN 512 ELSE 0) + (IF On("KF42") THEN SETGID ELSE 0)
+\* the state as MemFS reads it: sticky / set-gid bits of directories play no part
+MemView(st) ==
+    [st EXCEPT !.ino = [i \in DOMAIN st.ino |->
+        IF st.ino[i].k = "dir" THEN [st.ino[i] EXCEPT !.mode = AndNot(@, DirBitsIgnored)] ELSE st.ino[i]]]
+\* ... and back: a directory whose mode the call did not touch keeps the bits that were hidden
+Unview(pre, post) ==
+    [post EXCEPT !.ino = [i \in DOMAIN post.ino |->
+        IF i \in DOMAIN pre.ino /\ pre.ino[i].k = "dir" /\ post.ino[i].k = "dir"
+           /\ post.ino[i].mode = AndNot(pre.ino[i].mode, DirBitsIgnored)
+        THEN [post.ino[i] EXCEPT !.mode = pre.ino[i].mode] ELSE post.ino[i]]]
+\* link(2) without the hard-link protection
+LinkUnprotected(st, c) ==
+    LET ro == Res(st, c.p, FALSE)
+        rn == Res(st, c.q, FALSE) IN
+    IF ro.err # "ok" THEN Fail(ro.err, st)
+    ELSE IF ro.id = 0 THEN Fail("ENOENT", st)
+    ELSE IF rn.err # "ok" THEN Fail(rn.err, st)
+    ELSE IF rn.id # 0 \/ LastKind(c.q) # "norm" THEN Fail("EEXIST", st)
+    ELSE IF ~MayWX(st, Last(rn.par)) THEN Fail("EACCES", st)
+    ELSE IF IsDir(st, ro.id) THEN Fail("EPERM", st)
+    ELSE Ok(AddEntry(st, Last(rn.par), rn.name, ro.id))
+\* MemFS.removeAll(dir): the write bit of the directory is all it asks for; children in map order (any order)
+RECURSIVE MemRmDir(_, _, _)
+MemRmDir(st, dir, fuel) ==
+    IF ~May(st, dir, 2) THEN {[err |-> "EACCES", st |-> st]}
+    ELSE LET RECURSIVE Step(_, _)
+             Step(s, todo) ==
+                 IF todo = {} THEN {[err |-> "ok", st |-> s]}
+                 ELSE UNION {LET id == s.ino[dir].ent[n] IN
+                             IF IsDir(s, id) /\ fuel > 0
+                             THEN UNION {IF r.err # "ok" THEN {r} ELSE Step(DelEntry(r.st, dir, n), todo \ {n}) : r \in MemRmDir(s, id, fuel - 1)}
+                             ELSE Step(DelEntry(s, dir, n), todo \ {n})
+                             : n \in todo} IN
+         Step(st, DOMAIN st.ino[dir].ent)
+MemRemoveAll(st, c) ==
+    LET r == Res(st, c.p, FALSE) IN
+    IF ~IsEmptyPath(c.p) /\ ~EndsWithDot(c.p) /\ r.err = "ok" /\ r.id = Root
+    THEN \* the root directory: emptied as far as allowed, then refused (EINVAL: see KF02)
+         {IF i.err # "ok" THEN Fail(i.err, Gc(i.st)) ELSE Fail("EINVAL", Gc(i.st)) : i \in MemRmDir(st, Root, 6)}
+    ELSE
+    IF IsEmptyPath(c.p) \/ EndsWithDot(c.p) \/ r.err # "ok" \/ r.id = 0 \/ LastKind(c.p) # "norm" THEN {}    \* as the reference
+    ELSE LET par == Last(r.par)
+             inner == IF IsDir(st, r.id) /\ DOMAIN st.ino[r.id].ent # {} THEN MemRmDir(st, r.id, 6) ELSE {[err |-> "ok", st |-> st]} IN
+         {IF i.err # "ok" THEN Fail(i.err, Gc(i.st))
+          ELSE IF ~May(i.st, par, 2) THEN Fail("EACCES", Gc(i.st))
+          ELSE Ok(Gc(DelEntry(i.st, par, r.name))) : i \in inner}
+\* new directories keep the set-uid / set-gid bits asked for (mkdir(2) keeps the permission and sticky bits only)
+KeepSpecial(pre, post, c) ==
+    [post EXCEPT !.ino = [i \in DOMAIN post.ino |->
+        IF i \notin DOMAIN pre.ino /\ post.ino[i].k = "dir" THEN [post.ino[i] EXCEPT !.mode = @ + And(c.perm, SETUID + SETGID) - And(@, And(c.perm, SETUID + SETGID))]
+        ELSE post.ino[i]]]
+\* MemFS never takes set-uid / set-gid bits away when a non-administrator changes the content of a file
+ContentOps == {"writefile", "truncate", "openclose", "open", "create", "chown", "lchown"}
+KeepPriv(pre, post) ==
+    [post EXCEPT !.ino = [i \in DOMAIN post.ino |->
+        IF i \in DOMAIN pre.ino /\ pre.ino[i].k = "file" /\ post.ino[i].k = "file" /\ post.ino[i].mode # pre.ino[i].mode
+           /\ post.ino[i].mode = KilledMode(pre, pre.ino[i])
+        THEN [post.ino[i] EXCEPT !.mode = pre.ino[i].mode] ELSE post.ino[i]]]
+PermLabel(st, c) ==
+    LET sticky == \E i \in DOMAIN st.ino : st.ino[i].k = "dir" /\ HasBit(st.ino[i].mode, 512)
+        setgid == \E i \in DOMAIN st.ino : st.ino[i].k = "dir" /\ HasBit(st.ino[i].mode, SETGID)
+        ks == (IF c.op \in {"chown", "lchown"} THEN <<"KF40">> ELSE <<>>)
+              \o (IF c.op \in {"mkdir", "mkdirall", "mkdirtemp"} /\ And(c.perm, SETUID + SETGID) # 0 /\ On("KF41") THEN <<"KF41">> ELSE <<>>)
+              \o (IF setgid /\ On("KF42") /\ c.op \notin {"chown", "lchown"} THEN <<"KF42">> ELSE <<>>)
+              \o (IF c.op = "link" /\ On("KF43") THEN <<"KF43">> ELSE <<>>)
+              \o (IF sticky /\ On("KF44") /\ c.op \in {"remove", "removeall", "rename"} THEN <<"KF44">> ELSE <<>>)
+              \o (IF c.op = "removeall" /\ On("KF45") THEN <<"KF45">> ELSE <<>>)
+              \o (IF c.op = "mkdirall" /\ On("KF46") THEN <<"KF46">> ELSE <<>>)
+              \o (IF c.op \in ContentOps /\ On("KF48") /\ (~IsAdmin(st) \/ c.op \in {"chown", "lchown"})
+                     /\ (\E i \in DOMAIN st.ino : st.ino[i].k = "file" /\ And(st.ino[i].mode, SETUID + SETGID) # 0) THEN <<"KF48">> ELSE <<>>)
+        RECURSIVE Join(_)
+        Join(q) == IF q = <<>> THEN "" ELSE IF Len(q) = 1 THEN q[1] ELSE q[1] \o "+" \o Join(Tail(q)) IN
+    Join(ks)
+MemPerm(impl, st, c) ==
+    IF ~Mem(impl) \/ WinTyped(impl) \/ PermFamily \cap OpenKF = {} \/ c.op \notin NsOps THEN {}
+    ELSE
+    LET v == MemView(st)
+        raw == IF c.op \in {"chown", "lchown"} /\ On("KF40") /\ ~IsAdmin(st) THEN {Fail("EPERM", st)}
+               ELSE IF c.op = "removeall" /\ On("KF45") THEN MemRemoveAll(v, c)
+               ELSE IF c.op = "mkdirall" /\ On("KF46") THEN {MemMkdirAll(v, c)}
+               ELSE IF c.op = "link" /\ On("KF43") THEN {LinkUnprotected(v, c)}
+               ELSE {Apply(v, c)}
+        fin == {LET s1 == IF c.op \in {"mkdir", "mkdirall", "mkdirtemp"} /\ On("KF41") THEN KeepSpecial(v, o.st, c) ELSE o.st
+                    s2 == IF c.op \in ContentOps /\ On("KF48") THEN KeepPriv(v, s1) ELSE s1 IN
+                [res |-> o.res, st |-> Unview(st, s2)] : o \in raw}
+        strict == AllStrictOutcomes(st, c)
+        lab == PermLabel(st, c) IN
+    IF lab = "" THEN {} ELSE {Dev(lab, o, "ok", FALSE) : o \in {x \in fin : x \notin strict}}
+
+(* KF47  MemFS.Rename asks for write permission on both parent directories right after resolving the two paths:
+         a caller without it gets EACCES where rename(2) first notices that old and new are the same file (nil),
+         that the destination is an existing directory (EEXIST / ENOTEMPTY), a descendant of the source (EINVAL),
+         of the wrong type (ENOTDIR / EISDIR) or busy (EBUSY). *)
+KF47(impl, st, c) ==
+    LET ro == Res(st, c.p, FALSE)   rn == Res(st, c.q, FALSE)
+        strict == Apply(st, c) IN
+    IF Mem(impl) /\ ~WinTyped(impl) /\ c.op = "rename" /\ ~IsAdmin(st) /\ ro.err = "ok" /\ ro.id # 0 /\ rn.err = "ok"
+       \* (the root directory is its own parent)
+       /\ (~May(st, IF ro.par = <<>> THEN Root ELSE Last(ro.par), 2) \/ ~May(st, IF rn.par = <<>> THEN Root ELSE Last(rn.par), 2))
+       /\ strict.res.err # "EACCES"
+    THEN {Dev("KF47", Fail("EACCES", st), "ok", FALSE)} ELSE {}
+
 KFTable(impl, st, c) ==
     [KF01 |-> KF01(impl, st, c), KF02 |-> KF02(impl, st, c), KF03 |-> KF03(impl, st, c),
      KF04 |-> KF04(impl, st, c), KF05 |-> KF05(impl, st, c), KF06 |-> KF06(impl, st, c),
      KF07 |-> KF07(impl, st, c), KF08 |-> KF08(impl, st, c), KF10 |-> KF10(impl, st, c),
      KF11 |-> KF11(impl, st, c), KF12 |-> KF12(impl, st, c), KF13 |-> KF13(impl, st, c),
      KF14 |-> KF14(impl, st, c), KF21 |-> KF21(impl, st, c), KF22 |-> KF22(impl, st, c) \cup KF22and24(impl, st, c),
-     KF24 |-> KF24(impl, st, c), KF25 |-> KF25(impl, st, c), KF27 |-> KF27(impl, st, c), KF29 |-> KF29(impl, st, c), KF33 |-> KF33(impl, st, c), KF34 |-> KF34(impl, st, c)]
+     KF24 |-> KF24(impl, st, c), KF25 |-> KF25(impl, st, c), KF27 |-> KF27(impl, st, c), KF29 |-> KF29(impl, st, c), KF33 |-> KF33(impl, st, c), KF34 |-> KF34(impl, st, c), KF47 |-> KF47(impl, st, c)]
 
-AllKF == {"KF01", "KF02", "KF03", "KF04", "KF05", "KF06", "KF07", "KF08", "KF10", "KF11", "KF12", "KF13", "KF14", "KF21", "KF22", "KF24", "KF25", "KF27", "KF29", "KF33", "KF34"}
+AllKF == {"KF01", "KF02", "KF03", "KF04", "KF05", "KF06", "KF07", "KF08", "KF10", "KF11", "KF12", "KF13", "KF14", "KF21", "KF22", "KF24", "KF25", "KF27", "KF29", "KF33", "KF34", "KF47"}
 
 DevOutcomes(impl, st, c) ==
     LET t == KFTable(impl, st, c)
-        d1 == UNION {t[k] : k \in (OpenKF \cap DOMAIN t) \ {"KF34"}}
+        d1 == UNION {t[k] : k \in (OpenKF \cap DOMAIN t) \ {"KF34"}} \cup MemPerm(impl, st, c)
         \* KF34 applies to whatever outcome carries ELOOP, strict or deviating
         eloop == {o \in d1 \cup {Strict(y) : y \in AllStrictOutcomes(st, c)} : o.res.err = "ELOOP"}
         w == IF WinTyped(impl) /\ "KF34" \in OpenKF
